@@ -148,7 +148,7 @@ fn lookup_block_or_reference(parser: &mut Parser, recovery: TokenSet) {
     } else if parser.matches(2, Kind::Semi) {
         parser.in_node(AstKind::LookupRefNode, |parser| {
             assert!(parser.eat(Kind::LookupKw));
-            parser.eat_remap(TokenSet::IDENT_LIKE, AstKind::Ident);
+            parser.expect_remap_recover(TokenSet::IDENT_LIKE, AstKind::Ident, Kind::Semi);
             parser.expect_semi();
         })
     } else {
@@ -445,5 +445,22 @@ mod tests {
     #[test]
     fn parse_include_all_whitespace() {
         assert_include_path_matches("include(  );", "  ");
+    }
+
+    // these used to parse without error, producing nodes that were missing
+    // required children (which would then cause a panic during validation)
+    #[test]
+    fn missing_required_item_is_an_error() {
+        for fea in [
+            "feature test { pos base <anchor 0 0> mark @m; } test;",
+            "feature test { pos ligature <anchor 0 0> mark @m; } test;",
+            "feature test { pos mark <anchor 0 0> mark @m; } test;",
+            "feature test { pos cursive <anchor 0 0> <anchor 0 0>; } test;",
+            "feature test { sub a from; } test;",
+            "feature test { lookup;; } test;",
+        ] {
+            let (_out, errors, _errstr) = debug_parse_output(fea, root);
+            assert!(errors.iter().any(|err| err.is_error()), "{fea}");
+        }
     }
 }
